@@ -315,7 +315,73 @@ def explore(R: Recorder, tree: dict[str, Any], rng: random.Random, cap: int, ext
             judge(R, tree, ch, run_once(tree, ch))
 
 
+def run_manual_order(R: Recorder, case: dict[str, Any]) -> None:
+    """scopes entered and left by hand in ONE task, not necessarily last-in-first-out (what a generator holding a scope across its yields
+    does to its consumer): root, then A and B entered in that order, left in the given order"""
+    from haiway import ctx
+
+    order, kinds = case["order"], case["kinds"]
+    log: list[tuple[str, str]] = []
+    failures: list[str] = []
+
+    def cb(name: str) -> Any:
+        def done(metrics: Any) -> None:
+            log.append(("completion", name))
+        return done
+
+    async def main(loop: Any) -> None:
+        async with ctx.scope("root", completion=cb("root")):
+            scopes: dict[str, Any] = {}
+            for step in [order[i : i + 2] for i in range(0, len(order), 2)]:
+                what, name = step[0], step[1]
+                try:
+                    if what == "e":
+                        scopes[name] = ctx.scope(name, completion=cb(name))
+                        if kinds[name] == "async":
+                            await scopes[name].__aenter__()
+                        else:
+                            scopes[name].__enter__()
+                        log.append(("enter", name))
+                    else:
+                        if kinds[name] == "async":
+                            await scopes[name].__aexit__(None, None, None)
+                        else:
+                            scopes[name].__exit__(None, None, None)
+                        log.append(("exit", name))
+                except BaseException as exc:  # noqa: BLE001
+                    failures.append(f"{'entering' if what == 'e' else 'leaving'} {name} raised {exc!r}")
+                await asyncio.sleep(0)
+        log.append(("exit", "root"))
+        for _ in range(6):
+            await asyncio.sleep(0)
+
+    status, value, loop = run_virtual(main, max_iterations=5000)
+    R.case(case, nontrivial=order != "eAeBxBxA")
+    R.count("manual_enter_exit_orders")
+    w = {"kind": "manual-order", "order": order, "lifo": order == "eAeBxBxA"}
+    if status != "ok":
+        failures.append(f"run ended {status}: {value!r}")
+    R.monitor("no-exit-failure", not failures, where={**w, "kind": "exit-raised", "error": "manual-order"}, detail=f"order {order} kinds {kinds}: {failures}; log={log}", case=case)
+    pos = {e: i for i, e in enumerate(log)}
+    for name in ("A", "B", "root"):
+        n_comp = sum(1 for e in log if e == ("completion", name))
+        R.monitor("once", n_comp <= 1, where={**w, "kind": "completion-twice"}, detail=f"{name}: completion invoked {n_comp} times; log={log}", case=case)
+        R.monitor("eventually", n_comp >= 1, where={**w, "kind": "completion-never-fired", "callback": "sync", "node": name}, detail=f"{name}: everything was left but its completion never fired; log={log}", case=case)
+        if n_comp:
+            # nested under it: B under A when B was entered while A was open; everything under root
+            under = {"A": ["A"] + (["B"] if order.index("eB") < order.index("xA") else []), "B": ["B"], "root": ["root", "A", "B"]}[name]
+            early = [m for m in under if ("exit", m) not in pos or pos[("exit", m)] > pos[("completion", name)]]
+            R.monitor("after-subtree", not early, where={**w, "kind": "completion-before-subtree-left", "node": name}, detail=f"{name}: completion before {early} were left; log={log}", case=case)
+
+
+MANUAL_ORDERS = ("eAeBxBxA", "eAeBxAxB", "eAxAeBxB")
+
+
 def run(R: Recorder, tier: str, seed: int, shard: int, nshards: int) -> None:
+    if shard == 0:
+        for order in MANUAL_ORDERS:
+            for ka, kb in itertools.product(("async", "sync"), repeat=2):
+                run_manual_order(R, {"manual": True, "order": order, "kinds": {"A": ka, "B": kb}})
     cap, extra = CAP[tier]
     R.flags["exhaustive_core"] = f"all trees <= 3 nodes x kinds x placements, linearisations by DFS (cap {cap}, +{extra} random)"
     rngt = random.Random(f"C09/{seed}")
@@ -326,6 +392,9 @@ def run(R: Recorder, tier: str, seed: int, shard: int, nshards: int) -> None:
 
 
 def replay(R: Recorder, rec: dict[str, Any]) -> None:
+    if rec.get("manual"):
+        run_manual_order(R, rec)
+        return
     ch = Chooser(rec["choices"], "first")
     out = run_once(rec["tree"], ch)
     judge(R, rec["tree"], ch, out)
